@@ -238,6 +238,20 @@ func c17Families(thorough bool) []c17Member {
 		}
 		out = append(out, c17Member{"call-with-one-value-repeated", n, mk("a"), mk("1")})
 	}
+	// F3g: many trivial inner loops whose bound is a 9-level doubling DAG over the outer counter (whose
+	// own start is a long expression): the bound's text appears in every inner loop's header line
+	for _, n := range []int{5, 50, 200} {
+		var sb strings.Builder
+		sb.WriteString(hdr + "func F(a int) int {\n\tt := 0\n\tfor i := a")
+		for k := 0; k < 40; k++ {
+			fmt.Fprintf(&sb, "*%d+a", k+3)
+		}
+		sb.WriteString("; i < 100; i++ {\n\t\td := i + i\n")
+		sb.WriteString(strings.Repeat("\t\td = d + d\n", 8))
+		sb.WriteString(strings.Repeat("\t\tfor j := 0; j < d; j++ {\n\t\t\tt++\n\t\t}\n", n))
+		sb.WriteString("\t}\n\treturn t\n}\n")
+		out = append(out, c17Member{"inner-loops-bounded-by-a-doubling-dag", n, sb.String(), ""})
+	}
 	// F4: block count up to beyond the size guard
 	for _, n := range []int{500, 1000, 2000, 2600} {
 		var sb strings.Builder
@@ -272,6 +286,7 @@ func TestVerifC17(t *testing.T) {
 		scratch = t.TempDir()
 	}
 	members := c17Families(vh.Thorough())
+	var lastIRBytes int64 // canonical IR size of F in the member loaded last
 	load := func(tag, src string) (*ssa.Function, int, error) {
 		d := filepath.Join(scratch, tag)
 		os.MkdirAll(d, 0o755)
@@ -283,6 +298,7 @@ func TestVerifC17(t *testing.T) {
 		}
 		for _, x := range res {
 			if ShortFuncName(x.FunctionName) == "F" {
+				lastIRBytes = int64(len(x.CanonicalIR))
 				fn := x.GetSSAFunction()
 				n := 0
 				for _, b := range fn.Blocks {
@@ -463,6 +479,14 @@ func TestVerifC17(t *testing.T) {
 			chk("equivalence-comparisons", p.equiv, d.equiv)
 			chk("scev-evaluations", p.scev, d.scev)
 			chk("renamer-invocations", p.renamer, d.renamer)
+		}
+		// the canonical IR itself: every symbolic text in it is capped, so its size stays within a
+		// (generous) constant multiple of the source
+		if irBytes := lastIRBytes; m.new == "" || true {
+			if lim := int64(512<<10) + 400*int64(len(m.old)); irBytes > lim {
+				r.Violate("ir-size/"+key, fmt.Sprintf("%s: the canonical IR of F is %d bytes for %d bytes of source (bound 512 KiB + 400 x source = %d): a text that the documented size guard should have capped was written in full", key, irBytes, len(m.old), lim), rp)
+			}
+			r.Count("measured:"+key+":ir_bytes", irBytes)
 		}
 		// memory allocated while loading + building + fingerprinting the member (work no counter
 		// sees: the SSA builder, the type checker): between consecutive sizes of a family it may grow
